@@ -870,6 +870,9 @@ func (x *exec) step(s *State, in ssa.Instruction) bool {
 		x.regs[i] = x.makeMap(s, i.Type())
 	case *ssa.MakeChan:
 		r := e.newRef(s, "chan")
+		// a new channel is open
+		ch := e.heapGet(s, "chan#closed", Array(Int, Bool))
+		e.heapSet(s, "chan#closed", c.Store(ch, r, c.False()))
 		x.regs[i] = r
 	case *ssa.MakeClosure:
 		f := FuncV{Fn: i.Fn.(*ssa.Function)}
